@@ -15,7 +15,7 @@ import tempfile
 from pathlib import Path
 
 from ..core import Family
-from .c03 import CERTS, HOSTS, SHM, Runner, expected_steps
+from .c03 import CERT_FP, CERTS, HOSTS, SHM, Runner, expected_steps
 
 ID = "C11"
 READY = True
@@ -73,7 +73,7 @@ class Scenarios(Family):
         rng.shuffle(grid)
         for sit, op, mode in grid[: max(1, n // 2)]:
             count += 1
-            yield {"tofu": True, "situation": sit, "op": op, "mode": mode, "cert": rng.randrange(3), "size": rng.choice(sizes[1:5]) if op == "upload" else 0,
+            yield {"tofu": True, "situation": sit, "op": op, "mode": mode, "cert": rng.choice([0, 1, 2, 4, 5]), "size": rng.choice(sizes[1:5]) if op == "upload" else 0,
                    "token": "s3cr3t-token", "host": rng.randrange(3), "cseed": rng.randrange(1000)}
         while count < n:
             count += 1
@@ -81,7 +81,7 @@ class Scenarios(Family):
             sz = rng.choice(sizes) if op == "upload" else 0
             if op == "upload" and rng.random() < 0.3:
                 sz = rng.randint(0, 100000)
-            yield {"tofu": rng.random() < 0.93, "situation": rng.choice(SITUATIONS), "op": op, "mode": rng.choice(MODES), "cert": rng.randrange(3),
+            yield {"tofu": rng.random() < 0.93, "situation": rng.choice(SITUATIONS), "op": op, "mode": rng.choice(MODES), "cert": rng.choice([0, 1, 2, 4, 5]),
                    "size": sz, "token": rng.choice([None, "tok", "s3cr3t-" + "x" * rng.randrange(0, 40)]), "host": rng.randrange(3), "cseed": rng.randrange(1000)}
 
     # what the peer should receive if (and only if) verification passes -- straight from the protocol definitions
@@ -211,10 +211,10 @@ class Scenarios(Family):
         sit = case["situation"]
         store = "-"
         if sit == "pinned":
-            store = f"{t[0]}.{t[1]}={case['cert']}"
+            store = f"{t[0]}.{t[1]}={CERT_FP[case['cert']]}"
         elif self.prepinned_other(case):
             store = f"{t[0]}.{t[1]}={(case['cert'] + 1) % 3}"
-        pres = "x" if (t[2] == 3 or patch) else str(t[2])
+        pres = "x" if (t[2] == 3 or patch) else str(CERT_FP[t[2]])
         hop_s = f"{t[0]}.{t[1]}.{pres}"
         if case["op"] == "chain":
             a = hops[0]
